@@ -1220,6 +1220,22 @@ fn corpus(files: &Files) -> Vec<(&'static str, Vec<Cmd>)> {
                 files,
             ),
         ),
+        // an archive name goes through the pending-extract path of open (here: a corrupt archive, no messages)
+        (
+            "archive_open",
+            fixed(
+                &[
+                    (0, r#"open {"files":["@BADZIP"]}"#, open_a.clone()),
+                    (100, "stream {}", st(false, 0, 20, 0)),
+                    (0, r#"query {"window":[0,2]}"#, st(false, 0, 2, 0)),
+                    (150, "stop 1", OrcS::Id(false)),
+                    (0, "close", OrcS::None),
+                    (0, r#"open {"files":["@A"]}"#, open_a.clone()),
+                    (0, "close", OrcS::None),
+                ],
+                files,
+            ),
+        ),
         // known finding: one-pass collect mode
         (
             "kf_one_pass_late_stream",
@@ -1314,7 +1330,7 @@ fn main() {
     }
 
     let (n_gen, par) = match a.tier.as_str() {
-        "quick" => (a.count.unwrap_or(30), 6),
+        "quick" => (a.count.unwrap_or(40), 6),
         "search" => (a.count.unwrap_or(60), 8),
         _ => (a.count.unwrap_or(600), 8),
     };
